@@ -6,7 +6,7 @@ cd /verif
 git -C /repo apply /verif/seeded/$id/patch.diff || exit 2
 cp evidence/$prop.json /tmp/evidence_$prop.json.keep 2>/dev/null
 bin/check $prop --tier $tier > /tmp/seedrun_$id.log 2>&1; rc=$?
-git -C /repo checkout -- .
+git -C /repo apply -R /verif/seeded/$id/patch.diff
 cp /tmp/evidence_$prop.json.keep evidence/$prop.json 2>/dev/null
 grep -E "VIOLATION|FAIL|obligations discharged" /tmp/seedrun_$id.log | head -12
 echo "seed=$id prop=$prop exit=$rc"
